@@ -47,13 +47,20 @@ ExpectedVt == <<[type |-> 2, end |-> TRUE, iface |-> ISD_KEY, transfer |-> NDR64
 
 (* ---- step machine ------------------------------------------------------------------ *)
 (* state: pc, whether the DC's context is complete, header signing negotiated            *)
-S0 == [pc |-> "connect1", complete |-> FALSE, sign |-> FALSE, fails |-> {}]
+S0 == [pc |-> "dns_or_connect1", complete |-> FALSE, sign |-> FALSE, fails |-> {}]
 
 Check(s, conds) == [s EXCEPT !.fails = @ \cup {c[1] : c \in {d \in conds : ~d[2]}}]
 
 (* named clause sets per step; e is the decoded event, call the API call descriptor       *)
+(* extended behaviour (not part of a listed property; clause names start with EXT_): when no server is given the  *)
+(* DC is discovered with the SRV query of Dns.tla and both connections go to the chosen record's target            *)
+OnDns(s, call, e) ==
+  [Check(s, {<<"EXT_srv_query_name_for_blob_domain", e.qname = call.qname /\ e.rdtype = "SRV">>,
+             <<"EXT_srv_query_uses_search_list_only_without_domain", e.search>>}) EXCEPT !.pc = "connect1"]
 OnConnect1(s, call, e) ==
-  [Check(s, {<<"epm_connection_to_port_135", e.port = 135>>}) EXCEPT !.pc = "bind1"]
+  [Check(s, {<<"epm_connection_to_port_135", e.port = 135>>,
+             <<"EXT_connects_to_given_server_or_best_srv_target", e.host = call.host>>,
+             <<"EXT_dns_lookup_only_when_no_server_given", (s.pc = "connect1") <=> (call.qname # "none")>>}) EXCEPT !.pc = "bind1"]
 OnBind1(s, call, e) ==
   [Check(s, {<<"epm_bind_offers_epm_ndr64_only", e.ctxs = EpmContexts>>,
              <<"epm_bind_is_unauthenticated", e.authType = -1>>,
@@ -68,7 +75,8 @@ OnEptMap(s, call, e) ==
              <<"pdu_frag_len_matches", e.fragOK>>}) EXCEPT !.pc = "close1"]
 OnClose1(s, call, e) == [s EXCEPT !.pc = "connect2"]
 OnConnect2(s, call, e) ==
-  [Check(s, {<<"isd_connection_to_mapped_port", e.port = call.isdPort>>}) EXCEPT !.pc = "bind2"]
+  [Check(s, {<<"isd_connection_to_mapped_port", e.port = call.isdPort>>,
+             <<"EXT_connects_to_given_server_or_best_srv_target", e.host = call.host>>}) EXCEPT !.pc = "bind2"]
 OnBind2(s, call, e) ==
   [Check(s, {<<"isd_bind_offers_isd_key_ndr64_and_feature_negotiation", e.ctxs = IsdContexts>>,
              <<"isd_bind_authenticated_at_pkt_privacy", e.authType = AuthTypeOf(call.proto) /\ e.authLevel = PKT_PRIVACY>>,
@@ -102,7 +110,8 @@ Unexpected(s, e) == [s EXCEPT !.fails = @ \cup {"unexpected_step"}, !.pc = "stuc
 
 Step(s, call, e) ==
   CASE s.pc = "stuck" -> s
-    [] s.pc = "connect1" /\ e.ev = "connect" -> OnConnect1(s, call, e)
+    [] s.pc = "dns_or_connect1" /\ e.ev = "dns" -> OnDns(s, call, e)
+    [] s.pc \in {"dns_or_connect1", "connect1"} /\ e.ev = "connect" -> OnConnect1(s, call, e)
     [] s.pc = "bind1" /\ e.ev = "bind" -> OnBind1(s, call, e)
     [] s.pc = "eptmap" /\ e.ev = "request" -> OnEptMap(s, call, e)
     [] s.pc = "close1" /\ e.ev = "close" -> OnClose1(s, call, e)
